@@ -31,10 +31,12 @@ def setOf (p : Sq → Bool) : BB := BB.ofList (allSq.filter p)
 def rookRays (s : Sq) : BB := rookWalk s 0#64
 def bishopRays (s : Sq) : BB := bishopWalk s 0#64
 def between (a b : Sq) : BB := setOf fun x => strictlyBetween a x b
-/-- the whole line through two distinct aligned squares (both included); empty otherwise -/
+/-- the whole line through two distinct squares on a common rank, file or diagonal (both included);
+empty otherwise: `x` is on it iff `x - a` is parallel to `b - a` -/
 def line (a b : Sq) : BB := setOf fun x =>
-  allDirs.any fun u => (List.range 8).any fun n => onRay a u n b &&
-    (x == a || (List.range 8).any fun t => onRay a u t x || onRay x u t a)
+  let dfb := b.file - a.file; let drb := b.rank - a.rank
+  a != b && (dfb == 0 || drb == 0 || dfb.natAbs == drb.natAbs) &&
+  (x.file - a.file) * drb == (x.rank - a.rank) * dfb
 def king (s : Sq) : BB := setOf fun d =>
   d != s && (d.file - s.file).natAbs ≤ 1 && (d.rank - s.rank).natAbs ≤ 1
 def knight (s : Sq) : BB := setOf fun d =>
